@@ -182,7 +182,8 @@ impl Check for C20 {
     }
 
     fn run(&self, run: &Run) {
-        let q = run.tier.quick();
+        let deep = !run.tier.quick();
+        let q = false;
         run.rule("every parameter tuple of the stated grids is passed to PathBuilder::rect / arc and every op string up to the depth bound to Path::transform under 11 transforms; emitted ops are evaluated in f64 against the documented geometry; non-trivial = arcs with r > 0 and sweep != 0, transforms other than the identity");
         // rect
         let xs = [-3.0f32, 0., 2.5];
@@ -216,7 +217,7 @@ impl Check for C20 {
         let pi = std::f32::consts::PI;
         let centres = [(0.0f32, 0.0f32), (5., -3.)];
         let radii: Vec<f32> = if q { vec![0., 0.5, 10., 1000.] } else { vec![0., 1e-3, 0.5, 1., 10., 100., 1000.] };
-        let nstart = if q { 16 } else { 48 };
+        let nstart = if deep { 192 } else { 48 };
         let starts: Vec<f32> = (0..nstart).map(|i| -2.5 * pi + (i as f32) * (5.5 * pi / nstart as f32) + if i % 3 == 0 { 0.0 } else { 0.013 * i as f32 }).collect();
         let mut sweeps: Vec<f32> = vec![0.0];
         for s in [1e-3, pi / 4., pi / 2., pi, 1.5 * pi, 2. * pi, 2. * pi + 1e-3, 7., 100.] {
@@ -256,7 +257,7 @@ impl Check for C20 {
         });
         // transform + finish
         let alpha = op_alpha();
-        let depth = if q { 3 } else { 4 };
+        let depth = if deep { 5 } else { 4 };
         run.bound("transform", format!("all op strings of length 1..={} over {} ops x 2 winding rules x 11 transforms", depth, alpha.len()));
         run.par(alpha.len(), |a0, l| {
             fn rec(run: &Run, s: usize, l: &mut Local, alpha: &[POp], stack: &mut Vec<usize>, depth: usize) {
